@@ -854,7 +854,7 @@ fn run(ctx: &Ctx, rep: &Report) {
     // packages emitted by the builder (real, rich headers: all dependency kinds, scriptlets, caps, ...)
     {
         use crate::gen::build::{build, gen_cfg, pkg_bytes, GenOpts};
-        let nb: u64 = ctx.tier.pick(150, 3000);
+        let nb: u64 = ctx.tier.pick(150, 12_000);
         let base = ctx.work_dir("built");
         par_for(ctx.threads, nb, 1, |i| {
             let mut rng = Rng::for_case(ctx.seed, "C05-built", i);
@@ -876,7 +876,7 @@ fn run(ctx: &Ctx, rep: &Report) {
         });
         let _ = std::fs::remove_dir_all(&base);
     }
-    let n: u64 = ctx.tier.pick(20_000, 600_000);
+    let n: u64 = ctx.tier.pick(20_000, 4_000_000);
     let chunk = 200u64;
     par_for(ctx.threads, n / chunk, 1, |c| {
         let mut rng = Rng::for_case(ctx.seed, "C05", c);
